@@ -16,7 +16,9 @@ Tag(r, c) == ToString(r) \o ToString(c)
 CellKinds == {"plain", "pipe", "nl", "empty", "padded"}
 \* one more special kind outside the small alphabet: non-ASCII text.  TLC prints only
 \* ASCII, so the marker ~u stands for U+00E9 (the harness substitutes it everywhere)
-AllCellKinds == CellKinds \cup {"uni"}
+\* and one whose text does not depend on the position: the word rA, which documents of the
+\* repeated-content family also use as a heading text
+AllCellKinds == CellKinds \cup {"uni", "rep"}
 
 Raw(kd, r, c) ==
     CASE kd = "plain"  -> "p" \o Tag(r, c)
@@ -25,6 +27,7 @@ Raw(kd, r, c) ==
       [] kd = "empty"  -> ""
       [] kd = "padded" -> " q" \o Tag(r, c) \o " "
       [] kd = "uni"    -> "~u" \o Tag(r, c)
+      [] kd = "rep"    -> "rA"
 
 Words(kd, r, c) ==
     CASE kd = "plain"  -> <<"p" \o Tag(r, c)>>
@@ -33,6 +36,7 @@ Words(kd, r, c) ==
       [] kd = "empty"  -> <<>>
       [] kd = "padded" -> <<"q" \o Tag(r, c)>>
       [] kd = "uni"    -> <<"~u" \o Tag(r, c)>>
+      [] kd = "rep"    -> <<"rA">>
 
 \* Header marking of the SOURCE (hm): which rows the source format marks as header rows
 \*   "none"   no row          "first"  row 1            "lead2" / "lead3"  the first two / three rows
